@@ -26,6 +26,16 @@ META["C18"] = {
     "technique": "static analysis: whole-program call graph over MIR + panic-site inventory against an audited table; grammar action scan",
 }
 
+META["C01"] = {
+    "level": "Must-call and value-provenance rules on the MIR of the driver's stage functions and backend tails (finite site set, "
+             "enumerated completely). Types do not enforce the chain (Prog has the same type before and after uniquify/linearize), "
+             "and no test runs the pipeline end to end on the middle stages.",
+    "design_ref": "DESIGN.md §3 R-WIRE, §4 C01",
+    "note": "Decides only the wiring clause (a necessary condition). The behavioural statement - same bytes on stdout, exit status - "
+            "quantifies over run-time values of generated code and is not decided here.",
+    "technique": "static analysis: must-call / dominator / provenance rules over MIR of the driver",
+}
+
 NOT_APPLICABLE = {
     "C09": "Run-time heap invariant of *generated* code at every statement boundary of every execution; no path property of the "
            "compiler's source corresponds to it and no sound static argument in reach bounds it (DESIGN.md §4 C09/C10).",
@@ -34,5 +44,5 @@ NOT_APPLICABLE = {
 }
 # properties whose checks are not built yet are listed here until their rules exist (kept current by bin/gen-manifest)
 PENDING = "check not built yet in this round; planned rules are in DESIGN.md §4"
-for _p in ["C01", "C02", "C03", "C04", "C05", "C06", "C07", "C08", "C11", "C12", "C13", "C14", "C15", "C16", "C19", "C20"]:
+for _p in ["C02", "C03", "C04", "C05", "C06", "C07", "C08", "C11", "C12", "C13", "C14", "C15", "C16", "C19", "C20"]:
     NOT_APPLICABLE.setdefault(_p, PENDING)
